@@ -16,7 +16,17 @@ def buffers(seed, n, prefix='r'):
         for _ in range(per):
             kind = rng.choice(KINDS)
             r = rng.random()
-            if r < 0.3:
+            if r < 0.08 and kind in ('eth', 'cm', 'if'):
+                # one 16 bit inner length at the top of its range, zeros behind it: reads as "nothing more" to a
+                # validator whose sum or padding wraps in 16 bits (round6c-1)
+                b = wire.rbytes(rng, wire.HDR[kind]) + [0] * rng.choice([2, 4, 6, 10, 12])
+                if kind == 'if':
+                    b[29] = rng.randrange(3)
+                at = {'eth': [4], 'cm': [26, 28, 30, 32, 34], 'if': [36, 38]}[kind]
+                o = rng.choice([x for x in at if x + 2 <= len(b)])
+                top = rng.choice([0xFFFF, 0xFFFE, 0xFFFD, 0xFFFC, 0xFF00])
+                b[o], b[o + 1] = top >> 8, top & 255
+            elif r < 0.3:
                 b = wire.rbytes(rng, rng.randrange(0, wire.HDR[kind] + 12))
             elif r < 0.4 and kind in ('eth', 'cm', 'if'):
                 # inner lengths that need the high byte of their 16 bit field, the buffer cut anywhere
